@@ -160,6 +160,16 @@ func (db *DB) Merge() error {
 		}
 	}
 
+	// 重写过程中被判定为无效的旧记录, 其新版本可能还停留在未持久化的活跃文件中
+	// 完成标识一旦写入, 旧记录所在的文件就会在下次启动时被替换
+	// 因此必须先持久化活跃文件, 否则掉电后新版本丢失而旧版本也已不存在
+	db.mu.Lock()
+	err = db.activeFile.Sync()
+	db.mu.Unlock()
+	if err != nil {
+		return err
+	}
+
 	// 在 merge 临时目录创建并打开 merge 完成标识文件
 	mergeFinishedFile, err := datafile.OpenFile(mergePath, 0,
 		datafile.MergeFinishedFileSuffix, db.options.FileIOType)
